@@ -5,6 +5,8 @@ import IbModel.Proofs.ElementwiseOrder
 import IbModel.Proofs.ElementwiseProgram
 import IbModel.Proofs.ElementwiseTyped
 import IbModel.Model.Program
+import IbModel.Proofs.Terminals
+import IbModel.Proofs.TypedRun
 /-!
 # C02 — element-wise pipelines compute the steps as written, in order
 
@@ -44,7 +46,18 @@ What is proved instead:
   (`no_type_panic_literal`) or planned with an inert reorder pass (`no_type_panic_planned_partial`);
   the reorder pass can make it panic (`reorder_type_panic`);
 * the table obligation: exactly `map_values`, `filter_values`, `map_values_batches` carry the three
-  capability flags, with costs 3, 1, 2 (read from the running Rust code on every run).
+  capability flags, with costs 3, 1, 2 (read from the running Rust code on every run);
+* (round 3) the fail-fast terminal `collect_fail_fast` (section 9): `Ok(all values in order)` iff no element
+  failed, else `Err("element failed: <e>")` for the FIRST failing element in sequence order
+  (`fail_fast_ok_iff`, `fail_fast_first_error`, `fail_fast_is_mapM`), and for the programs the driver runs
+  (`collect_fail_fast_after_try_map`, `…_par` for every partition count);
+* (round 3) the typed run the DRIVER evaluates on `PIPEW` requests (section 10, two Rust element types in the
+  harness): mode-independent for every partition count (`typed_run_mode_independent`), panic-free for
+  type-checked programs with an inert reorder pass (`typed_run_no_panic_partial`), and the reorder pass makes
+  the type-changing witness panic in every mode on every input (`reorder_type_panic_every_mode`) — the real
+  engine does (`FilterValuesOp: expected Vec<(K,V)>`), attributed to the listed reorder finding;
+* (round 3) `BatchMapValuesOp` asserts that the chunk function keeps the chunk length; the model
+  (`Closures.lean::rekeyChunk`) and `EStep.eval` answer the single row `err` (= `PANIC`) otherwise.
 
 Section 7 instantiates all of this for `runLiteral / runSeq / runPar / runSeqNoReorder`, the functions
 the driver evaluates in the correspondence check against the real crate.
@@ -496,5 +509,125 @@ example : NoLiftPair [vecSource [kv 0 1], gbkNode, combineValuesNode (Comb.toCom
   intro n hn
   simp only [List.mem_cons, List.not_mem_nil, or_false] at hn
   rcases hn with rfl | rfl | rfl <;> rfl
+
+/-! ## 9. `collect_fail_fast` (round 3) — the fail-fast terminal of a `Result` collection
+
+`Model/ProgramTerm.lean::failFast` is the loop of `helpers/try_process.rs::collect_fail_fast` (which ALWAYS collects
+sequentially); the driver evaluates it on every `PIPEX … term=fail_fast` request. The code returns
+`Err(anyhow!("element failed: {e}"))` for the FIRST `Err(e)` in sequence order. -/
+
+/-- `Ok(all values, in order)` iff no element failed -/
+theorem fail_fast_ok_iff (rows vs : List Val) :
+    failFast rows = .ok vs ↔ (∀ r ∈ rows, isErrRow r = false) ∧ vs = rows.map Val.value :=
+  failFast_ok_iff rows vs
+
+/-- `Err` iff some element failed, and then it is the error of the FIRST failing element in sequence order
+    (everything before it is `Ok`), rendered `"element failed: <e>"` -/
+theorem fail_fast_first_error (rows : List Val) (m : Val) :
+    failFast rows = .error m ↔
+      ∃ pre r post, rows = pre ++ r :: post ∧ (∀ x ∈ pre, isErrRow x = false) ∧ isErrRow r = true ∧
+        m = failMsg r.value :=
+  failFast_error_iff rows m
+
+/-- the loop is `List.mapM` in the `Except` monad -/
+theorem fail_fast_is_mapM (rows : List Val) : failFast rows = rows.mapM resultOf := failFast_eq_mapM rows
+
+theorem plannerOrder_of_nonvalue (steps : List EStep) (h : ∃ s ∈ steps, s.isValueOnly = false) :
+    plannerOrder steps = steps := by
+  unfold plannerOrder
+  obtain ⟨s, hs, hv⟩ := h
+  have : steps.all EStep.isValueOnly = false := by
+    rw [List.all_eq_false]
+    exact ⟨s, hs, by simp [hv]⟩
+  simp [this]
+
+/-- **`try_map` then `collect_fail_fast`, for the programs the driver runs**: after ANY element-wise program
+    `pre`, the terminal returns `tryMapSpec p rows` (`Proofs/Terminals.lean`): all rows of `pre` when every one
+    passes the predicate, and otherwise `Err("element failed: bad:<to_int x>")` for the FIRST row `x` (in the
+    order `pre` produces them, as written — a `try_map` stops the planner's reorder pass) that does not. -/
+theorem collect_fail_fast_after_try_map (src : List Val) (pre : List Step) (es : List EStep) (p : Pred)
+    (h : toESteps pre = some es) :
+    (runSeq src (pre ++ [.tryMapP p])).map failFast =
+      .ok (tryMapSpec p (interp es src)) := by
+  have h2 := toESteps_snoc pre es (.tryMapP p) (.map (tryPF p)) h rfl
+  rw [runSeq_eq_interp_plannerOrder src _ _ h2,
+    plannerOrder_of_nonvalue _ ⟨.map (tryPF p), by simp, rfl⟩, interp_append]
+  show Except.ok (failFast ((interp es src).map (tryPF p))) = _
+  rw [failFast_tryPF]
+
+/-- the same over a PARALLEL collect, for every partition count (batch chunk functions element-wise): the
+    user-level fail-fast loop over `collect_par` finds the same first error -/
+theorem collect_fail_fast_after_try_map_par (src : List Val) (pre : List Step) (es : List EStep) (p : Pred)
+    (h : toESteps pre = some es) (hp : ∀ s ∈ es, s.ParOK) (n : Nat) :
+    (runPar src (pre ++ [.tryMapP p]) n).map failFast =
+      .ok (tryMapSpec p (interp es src)) := by
+  have h2 := toESteps_snoc pre es (.tryMapP p) (.map (tryPF p)) h rfl
+  have hp2 : ∀ s ∈ es ++ [EStep.map (tryPF p)], s.ParOK := by
+    intro s hs
+    simp only [List.mem_append, List.mem_singleton] at hs
+    rcases hs with hs | rfl
+    · exact hp s hs
+    · trivial
+  rw [runPar_eq_interp_plannerOrder src _ _ h2 hp2 n,
+    plannerOrder_of_nonvalue _ ⟨.map (tryPF p), by simp, rfl⟩, interp_append]
+  show Except.ok (failFast ((interp es src).map (tryPF p))) = _
+  rw [failFast_tryPF]
+
+/-- non-vacuity / witnesses: only the LAST element fails; the first of two failures is reported -/
+example : (runSeq [.int 2, .int 4, .int 6, .int 7] [.tryMapP .even]).map failFast
+    = .ok (.error (.str "element failed: bad:7")) := by rfl
+example : (runSeq [.int 2, .int 3, .int 4, .int 5] [.tryMapP .even]).map failFast
+    = .ok (.error (.str "element failed: bad:3")) := by rfl
+example : (runPar [.int 2, .int 4, .int 6] [.map (.add 2), .tryMapP .even] 2).map failFast
+    = .ok (.ok [.int 4, .int 6, .int 8]) := by rfl
+
+/-! ## 10. the typed run the driver evaluates on `PIPEW` requests (round 3)
+
+The harness has a second Rust element type `W` (a newtype over `V`) and type-changing steps; the driver runs
+`typedChain t0 xs steps` (`Proofs/TypedRun.lean`; `= typedSource t0 xs :: one Stateless [typedOp tin tout op] per
+step`, the chain of `no_type_panic_literal` / `no_type_panic_planned_partial` / `reorder_type_panic` above)
+through `optimise` and `execSeq` / `execPar concatT`, and model and real engine must agree — including `PANIC`. -/
+
+/-- the chain the driver builds is the chain section 5b speaks about -/
+theorem typed_run_chain (t0 : Nat) (xs : List Val) (steps : List TStep) :
+    typedChain t0 xs steps = typedSource t0 xs :: (steps.map TStep.toOp).map (fun o => .stateless [o]) := rfl
+
+/-- **mode independence of the typed run** (no type-check hypothesis): for every partition count the parallel
+    run returns what the sequential run returns — the same rows and element type, or the same downcast panic -/
+theorem typed_run_mode_independent (t0 : Nat) (xs : List Val) (steps : List TStep)
+    (hp : ∀ s ∈ steps, s.step.ParOK) (n : Nat) :
+    execPar concatT (optimise (typedChain t0 xs steps)) n = execSeq (optimise (typedChain t0 xs steps)) :=
+  typed_par_eq_seq t0 xs steps hp n
+
+/-- PARTIAL (needs the reorder pass to be inert — `reorder_type_panic_every_mode` otherwise): a type-checked
+    program never panics in a downcast, in either mode, for any partition count, and returns the steps as written
+    with the statically known element type -/
+theorem typed_run_no_panic_partial (t0 : Nat) (xs : List Val) (steps : List TStep)
+    (h : WellTyped t0 steps) (hin : BlockInert (steps.map (fun s => s.step.toOp)))
+    (hp : ∀ s ∈ steps, s.step.ParOK) :
+    execSeq (optimise (typedChain t0 xs steps)) = .ok (some (finalType t0 steps, interp (steps.map TStep.step) xs)) ∧
+    ∀ n, execPar concatT (optimise (typedChain t0 xs steps)) n
+      = .ok (some (finalType t0 steps, interp (steps.map TStep.step) xs)) := by
+  have hs := no_type_panic_planned_partial t0 xs steps h hin
+  rw [← typed_run_chain] at hs
+  exact ⟨hs, fun n => by rw [typed_par_eq_seq t0 xs steps hp n, hs]⟩
+
+/-- NEGATION in every mode: the type-changing `map_values` followed by `filter_values` on the new type panics for
+    EVERY input (the empty one included) sequentially and for every partition count -/
+theorem reorder_type_panic_every_mode :
+    ∃ (t0 : Nat) (steps : List TStep), WellTyped t0 steps ∧ ∀ (xs : List Val),
+      execSeq (optimise (typedChain t0 xs steps)) = .ok none ∧
+      ∀ n, execPar concatT (optimise (typedChain t0 xs steps)) n = .ok none := by
+  refine ⟨0, [⟨0, 1, .mapValues add1⟩, ⟨1, 1, .filterValues isEven⟩], ⟨rfl, trivial, rfl, rfl, trivial⟩, ?_⟩
+  intro xs
+  have hs : execSeq (optimise (typedChain 0 xs [⟨0, 1, .mapValues add1⟩, ⟨1, 1, .filterValues isEven⟩])) = .ok none := by
+    rw [typed_run_chain]
+    unfold typedSource
+    rw [custom_ops_planned]
+    simp only [List.map_cons, List.map_nil]
+    rw [reorderBlock_pair_swap _ _ rfl rfl (by decide)]
+    rfl
+  refine ⟨hs, fun n => ?_⟩
+  rw [typed_par_eq_seq _ _ _ (by intro s hs'; simp only [List.mem_cons, List.mem_nil_iff, or_false] at hs'; rcases hs' with rfl | rfl <;> trivial) n, hs]
 
 end IB.C02
